@@ -442,7 +442,15 @@ async def run_steps(W: World, steps: list[dict[str, Any]], rng: random.Random | 
         if op == "probe":
             take_probe(W, step["id"], rng)
         elif op == "gate":
-            await W.sched.gate(step["label"])
+            if step.get("on_cancel_raise"):
+                try:
+                    await W.sched.gate(step["label"])
+                except asyncio.CancelledError:
+                    # the task's cleanup fails: it ends with an error of its own instead of ending cancelled
+                    W.event("cleanup-fails", step["label"])
+                    raise ChildErr(step["label"]) from None
+            else:
+                await W.sched.gate(step["label"])
         elif op == "spawn":
             name = step["name"]
 
@@ -464,7 +472,14 @@ async def run_steps(W: World, steps: list[dict[str, Any]], rng: random.Random | 
                     except BaseException:  # noqa: BLE001
                         pass
         elif op == "block":
-            if step.get("catch"):
+            if step.get("catch") == "exceptions":
+                # user code that handles a failing block (`except Exception: fallback`); cancellation is not its business
+                try:
+                    await run_block(W, step, rng)
+                    W.caught[step["name"]] = None
+                except Exception as exc:  # noqa: BLE001
+                    W.caught[step["name"]] = exc
+            elif step.get("catch"):
                 try:
                     await run_block(W, step, rng)
                     W.caught[step["name"]] = None
@@ -487,6 +502,9 @@ async def run_steps(W: World, steps: list[dict[str, Any]], rng: random.Random | 
                 await asyncio.get_running_loop().create_future()
             except asyncio.CancelledError:
                 W.event("forever-cancelled", step.get("tag"))
+                if step.get("on_cancel_raise"):
+                    # the task's cleanup fails: it ends with an error of its own instead of ending cancelled
+                    raise ChildErr(step.get("tag", "cleanup")) from None
                 if step.get("on_cancel"):
                     # cleanup code of a cancelled task (e.g. a fire-and-forget ctx.spawn from an `except CancelledError:` block)
                     try:
